@@ -613,6 +613,8 @@ impl Check for C02 {
         let mut rep = RunReport::default();
         let mut hh = Hasher64::new();
         hh.str(&h.to_json().to_string());
+        hh.u64(out.checked);
+        hh.str(out.violation.as_ref().map(|v| v.0.as_str()).unwrap_or("held"));
         rep.trace_hash = hh.finish();
         rep.nontrivial = out.overrides > 0;
         rep.count("objects_compared", out.checked);
